@@ -7,6 +7,7 @@ use serde_json::Value;
 pub mod c01;
 pub mod c02_03_05;
 pub mod graphs;
+pub mod c04;
 pub mod c06;
 pub mod c07;
 pub mod c08;
@@ -45,6 +46,7 @@ pub fn get(id: &str) -> Option<Box<dyn Prop>> {
         "C01" => Box::new(c01::C01),
         "C02" => Box::new(c02_03_05::GraphProp(graphs::Which::C02)),
         "C03" => Box::new(c02_03_05::GraphProp(graphs::Which::C03)),
+        "C04" => Box::new(c04::C04),
         "C05" => Box::new(c02_03_05::GraphProp(graphs::Which::C05)),
         "C06" => Box::new(c06::C06),
         "C07" => Box::new(c07::C07),
